@@ -3,7 +3,7 @@ import io, os, sys
 sys.path.insert(0, os.path.dirname(__file__))
 from _common import main, j2b, b2j
 
-BOUND = 'writer files over 5 message shapes x {latin_1, ascii, cp037, cp500} x blocked/VBS x 1..9 blocks; unblocked files with 40 40 pairs near 1012/2026/3040; every length 0..23 and 24..28; first length max and max+1; every unconfigured bit 2..128'
+BOUND = 'configuration entry added / removed between inspections of the same bytes; writer files over 5 message shapes x {latin_1, ascii, cp037, cp500} x blocked/VBS x 1..9 blocks; unblocked files with 40 40 pairs near 1012/2026/3040; every length 0..23 and 24..28; first length max and max+1; every unconfigured bit 2..128'
 
 
 def expected(data):
@@ -30,8 +30,37 @@ def expected(data):
     return True, enc, blocked
 
 
+def config_history(inp):
+    """`has no configuration` is judged against the configuration as it is when the file is inspected"""
+    from cardutil.config import config
+    from cardutil.mciipm import ipm_info
+    bc = config['bit_config']
+    bit = str(inp['bit'])
+    bm = bytearray(16); bm[0] |= 0x80; bm[(inp['bit'] - 1) // 8] |= 1 << (7 - (inp['bit'] - 1) % 8)
+    data = (100).to_bytes(4, 'big') + b'1144' + bytes(bm) + b'0' * 96 + b'\x00' * 4
+    saved = bc.get(bit)
+    try:
+        for present in inp['steps']:
+            if present:
+                bc[bit] = saved or {'field_name': 'x', 'field_type': 'FIXED', 'field_length': 6}
+            else:
+                bc.pop(bit, None)
+            info = ipm_info(io.BytesIO(data))
+            if bool(info.get('isValidIPM')) != bool(present):
+                return 'config-history: element %s %s in the configuration, file using it reported isValidIPM=%r (steps %s)' % (
+                    bit, 'is' if present else 'is not', info.get('isValidIPM'), inp['steps'])
+    finally:
+        if saved is None:
+            bc.pop(bit, None)
+        else:
+            bc[bit] = saved
+    return None
+
+
 def oracle(inp):
     from cardutil.mciipm import ipm_info
+    if inp.get('kind') == 'config-history':
+        return config_history(inp)
     inp = j2b(inp)
     data = inp['data']
     if not isinstance(data, bytes):
@@ -54,6 +83,9 @@ def oracle(inp):
 
 def cases(tier, rng):
     from cardutil.mciipm import IpmWriter
+    for bit in (7, 8, 3, 72):
+        yield {'kind': 'config-history', 'bit': bit, 'steps': [True, False, True]}
+        yield {'kind': 'config-history', 'bit': bit, 'steps': [False, True, False, False]}
     msgs = [{'MTI': '1144', 'DE2': '4444555566667777'}, {'MTI': '1240', 'DE3': '000000', 'DE4': 1, 'DE72': 'z' * 600},
             {'MTI': '1644', 'DE24': '697', 'DE48': '0105003abc'}, {'MTI': '1442', 'DE55': b'\x9a\x01\x01', 'DE127': '@' * 900},
             {'MTI': '1740', 'DE71': 5, 'DE94': 'abc', 'DE43': 'N\\A\\S\\2000      NSWAUS'}]
